@@ -14,7 +14,8 @@ NOTE = ("Trusted base: clang 14 front end (parse, Sema, template instantiation),
 CLAIMED = {
     "C01": dict(
         text=("Decides four clauses of 'parsing is total and safe' for every input at once: (1) every successful exit of the parse "
-              "entry passes the exhausted-input test whose failing arm throws - unparsed text is never dropped silently; (2) "
+              "entry (every member that installs an input buffer) passes the exhausted-input test whose failing arm throws, with "
+              "nothing consumed in between - unparsed text is never dropped silently; (2) "
               "every recursion cycle of the parser's call graph contains a function that constructs the Depth_Counter before "
               "any call, the counter throws eval_error beyond the limit and decrements on exit - nesting depth is an error, "
               "not a native stack overflow; (3) cursor discipline: the raw buffer pointers are private to Position and "
@@ -75,7 +76,9 @@ CLAIMED = {
               "returns the left operand (assignment cases); every opcode has a wrapper of the right arity that reaches a "
               "handler; operator-string tables (to_operator, registrations) agree with the C++ meaning of each token; the "
               "Common_Types width/signedness tables name the right C++ types; all four evaluation routes reach the same "
-              "kernel with the same decoding and preserve/translate arithmetic_error as documented. Not decided: the numeric "
+              "kernel with the same decoding and preserve/translate arithmetic_error as documented; inside the arm guarded by the "
+              "operands' is_arithmetic() test the operator nodes return nothing but the kernel's result; every compound-"
+              "assignment token is decoded by to_operator (so that a trap is reported as eval_error uniformly). Not decided: the numeric "
               "values themselves (they are what the C++ compiler computes once operator and operand types are right)."),
         technique="custom AST dataflow/dominance rules over a libTooling fact extractor (all template instantiations), table cross-checks",
         ref="DESIGN.md section 4 C05"),
@@ -167,7 +170,9 @@ CLAIMED = {
               "classified (guarded-by / atomic / per-thread / immutable after construction / own synchronisation) and a new "
               "field is a violation; every `mutable` field in the whole code base is atomic, a mutex or per-thread storage "
               "(evaluation is const and runs concurrently); no non-recursive mutex is held across a call that re-acquires it "
-              "or can reach script/C++ callbacks; the single shared parser object parses with a fresh local parser. use()'s "
+              "or can reach script/C++ callbacks; a lookup of a guarded table and the update that depends on it lie in one critical "
+              "section, or the update cannot overwrite / re-tests (no lost registration without a data race); the single "
+              "shared parser object parses with a fresh local parser. use()'s "
               "exactly-once clause is decided in C19 R19.3. Not decided: per-thread results equal single-threaded runs; "
               "registration visibility timing; races the script itself creates on shared global values."),
         technique="lock-set analysis with requirement propagation over the resolved call graph; guarded-by table; mutable/field inventory",
